@@ -124,8 +124,341 @@ proof fn lemma_neg(p: nat, w: nat)
     lemma_band_low(n, w);
     if p == 0 {
         lemma_mod_self_0(pow2(w) as int);
+        lemma_small_mod(0, pow2(w));
     } else {
         lemma_small_mod(n, pow2(w));
         lemma_mod_unique(n as int, -(p as int), -1, pow2(w) as int);
     }
+}
+
+proof fn lemma_ext_nonzero(p: nat, xw: nat, w: nat, s: bool)
+    requires w >= 1
+    ensures (ext_v(p, xw, w, s) != 0) == (p != 0)
+{
+    lemma_pow2_step((w - 1) as nat);
+    if xw >= 1 && xw < w { lemma_pow2_strictly_increases(xw, w); lemma_bit_zero((xw - 1) as nat); }
+}
+
+/// the extension of a well-formed operand to a context width >= its own width fits the context width
+proof fn lemma_ext_bound(v: Value, w: nat, sx: bool)
+    requires wf(v), vw(v) <= w
+    ensures ext_p(v, w, sx) < pow2(w), ext_m(v, w, sx) < pow2(w)
+{
+    lemma_low_lt(w);
+    let xw = vw(v);
+    if xw >= 1 && xw < w { lemma_sext(vp(v), xw, w); lemma_sext(vm(v), xw, w); }
+}
+
+/// subtraction as the code computes it: (x + (((y ^ mask) + 1) & mask)) & mask
+proof fn lemma_sub_mod(x: nat, y: nat, w: nat)
+    requires x < pow2(w), y < pow2(w)
+    ensures band(x + band(bxor(y, low(w)) + 1, low(w)), low(w)) as int == (x as int - y as int) % (pow2(w) as int),
+            band(x + band(bxor(y, low(w)) + 1, low(w)), low(w)) < pow2(w)
+{
+    lemma_neg(y, w);
+    let ny = band(bxor(y, low(w)) + 1, low(w));
+    lemma_band_low(x + ny, w);
+    let m = pow2(w) as int;
+    let r = ((x + ny) % pow2(w)) as int;
+    lemma_fundamental_div_mod((x + ny) as int, m);
+    let q = ((x + ny) as int) / m;
+    if y == 0 {
+        assert(r + q * m == x as int - y as int) by (nonlinear_arith) requires x + ny == m * q + r, ny == 0, y == 0;
+        lemma_mod_unique(r, x as int - y as int, q, m);
+    } else {
+        assert(r + (q - 1) * m == x as int - y as int) by (nonlinear_arith) requires x + ny == m * q + r, ny == m - y;
+        lemma_mod_unique(r, x as int - y as int, q - 1, m);
+    }
+}
+
+proof fn lemma_div_small(x: nat, y: nat, w: nat)
+    requires x < pow2(w), y != 0
+    ensures band(x / y, low(w)) == x / y, x / y < pow2(w), band(x % y, low(w)) == x % y, x % y < pow2(w)
+{
+    lemma_div_nonincreasing(x as int, y as int);
+    lemma_div_pos_is_pos(x as int, y as int);
+    lemma_mod_decreases(x, y);
+    lemma_band_low(x / y, w);
+    lemma_band_low(x % y, w);
+    lemma_small_mod(x / y, pow2(w));
+    lemma_small_mod(x % y, pow2(w));
+}
+
+/// the two's complement value of a w-bit pattern
+proof fn lemma_sval_bound(p: nat, w: nat)
+    requires w >= 1, p < pow2(w)
+    ensures abs(sval(p, w)) <= pow2((w - 1) as nat), pow2((w - 1) as nat) < pow2(w), (sval(p, w) == 0) == (p == 0),
+            -(pow2((w - 1) as nat) as int) <= sval(p, w) < pow2((w - 1) as nat)
+{
+    lemma_msb(p, w);
+    lemma_pow2_step((w - 1) as nat);
+}
+
+proof fn lemma_tdiv_bound(a: int, b: int)
+    requires b != 0
+    ensures abs(tdiv(a, b)) <= abs(a), abs(trem(a, b)) <= abs(a)
+{
+    lemma_div_nonincreasing(abs(a) as int, abs(b) as int);
+    lemma_div_pos_is_pos(abs(a) as int, abs(b) as int);
+    lemma_mod_decreases(abs(a), abs(b));
+}
+
+// ---- equality / wildcard / logical / reduction: what the mask arithmetic of the code means, position by position ----
+pub open spec fn known_diff(xp: nat, xm: nat, yp: nat, ym: nat, k: nat) -> bool { !bit(xm, k) && !bit(ym, k) && bit(xp, k) != bit(yp, k) }
+/// some position is known in both operands and differs
+pub open spec fn mismatch(xp: nat, xm: nat, yp: nat, ym: nat, w: nat) -> bool { exists|k: nat| k < w && #[trigger] known_diff(xp, xm, yp, ym, k) }
+/// 11.4.5: definite mismatch -> 0; else any x/z -> x; else 1
+pub open spec fn eq4(xp: nat, xm: nat, yp: nat, ym: nat, w: nat) -> B4 {
+    if mismatch(xp, xm, yp, ym, w) { B4::Zero } else if xm != 0 || ym != 0 { B4::X } else { B4::One }
+}
+pub open spec fn left_unknown(xm: nat, ym: nat, k: nat) -> bool { bit(xm, k) && !bit(ym, k) }
+/// 11.4.6: x/z of the RIGHT operand are don't-care positions; an x/z of the left operand at a compared position makes the result x
+pub open spec fn weq4(xp: nat, xm: nat, yp: nat, ym: nat, w: nat) -> B4 {
+    if mismatch(xp, xm, yp, ym, w) { B4::Zero } else if exists|k: nat| k < w && #[trigger] left_unknown(xm, ym, k) { B4::X } else { B4::One }
+}
+pub open spec fn known1(p: nat, m: nat, k: nat) -> bool { bit(p, k) && !bit(m, k) }
+pub open spec fn known0(p: nat, m: nat, k: nat) -> bool { !bit(p, k) && !bit(m, k) }
+/// 3-valued truth of a vector (11.4.7): One if some bit is a known 1, Zero if all bits are known 0, else X
+pub open spec fn truth(p: nat, m: nat, w: nat) -> B4 {
+    if exists|k: nat| k < w && #[trigger] known1(p, m, k) { B4::One } else if m == 0 { B4::Zero } else { B4::X }
+}
+pub open spec fn and4(a: B4, b: B4) -> B4 { if a == B4::Zero || b == B4::Zero { B4::Zero } else if a == B4::One && b == B4::One { B4::One } else { B4::X } }
+pub open spec fn or4(a: B4, b: B4) -> B4 { if a == B4::One || b == B4::One { B4::One } else if a == B4::Zero && b == B4::Zero { B4::Zero } else { B4::X } }
+
+/// n < 2^w is non-zero iff it has a one bit below w
+proof fn lemma_nonzero_low(n: nat, w: nat)
+    requires n < pow2(w)
+    ensures (n != 0) == (exists|k: nat| k < w && #[trigger] bit(n, k))
+{
+    lemma_nonzero_bit(n);
+    if n != 0 {
+        let k = choose|k: nat| bit(n, k);
+        if k >= w { lemma_bit_high(n, w, k); }
+    }
+}
+
+proof fn lemma_eq_mask(xp: nat, xm: nat, yp: nat, ym: nat, w: nat)
+    requires xp < pow2(w), xm < pow2(w), yp < pow2(w), ym < pow2(w)
+    ensures (band(band(bxor(xp, yp), bxor(xm, low(w))), bxor(ym, low(w))) != 0) == mismatch(xp, xm, yp, ym, w),
+            (band(xm, bxor(ym, low(w))) != 0) == (exists|k: nat| k < w && #[trigger] left_unknown(xm, ym, k)),
+{
+    broadcast use lemma_band_bit, lemma_bxor_bit, lemma_low_bit;
+    let n = band(band(bxor(xp, yp), bxor(xm, low(w))), bxor(ym, low(w)));
+    lemma_band_le(band(bxor(xp, yp), bxor(xm, low(w))), bxor(ym, low(w)));
+    lemma_bxor_low(ym, w);
+    lemma_nonzero_low(n, w);
+    if n != 0 {
+        let k = choose|k: nat| k < w && bit(n, k);
+        assert(known_diff(xp, xm, yp, ym, k));
+    }
+    if mismatch(xp, xm, yp, ym, w) {
+        let k = choose|k: nat| k < w && known_diff(xp, xm, yp, ym, k);
+        assert(bit(n, k));
+    }
+    let u = band(xm, bxor(ym, low(w)));
+    lemma_band_le(xm, bxor(ym, low(w)));
+    lemma_nonzero_low(u, w);
+    if u != 0 {
+        let k = choose|k: nat| k < w && bit(u, k);
+        assert(left_unknown(xm, ym, k));
+    }
+    if exists|k: nat| k < w && #[trigger] left_unknown(xm, ym, k) {
+        let k = choose|k: nat| k < w && left_unknown(xm, ym, k);
+        assert(bit(u, k));
+    }
+}
+
+/// the wildcard arm computes the same mismatch with the factors in another order
+proof fn lemma_weq_mask(xp: nat, xm: nat, yp: nat, ym: nat, w: nat)
+    requires xp < pow2(w), xm < pow2(w), yp < pow2(w), ym < pow2(w)
+    ensures (band(band(bxor(xp, yp), bxor(ym, low(w))), bxor(xm, low(w))) != 0) == mismatch(xp, xm, yp, ym, w)
+{
+    broadcast use lemma_band_bit;
+    lemma_eq_mask(xp, xm, yp, ym, w);
+    let a = band(band(bxor(xp, yp), bxor(ym, low(w))), bxor(xm, low(w)));
+    let b = band(band(bxor(xp, yp), bxor(xm, low(w))), bxor(ym, low(w)));
+    assert forall|i: nat| #[trigger] bit(a, i) == bit(b, i) by {}
+    lemma_bit_ext(a, b);
+}
+
+proof fn lemma_truth_mask(p: nat, m: nat, w: nat)
+    requires p < pow2(w), m < pow2(w)
+    ensures (band(p, bxor(m, low(w))) != 0) == (exists|k: nat| k < w && #[trigger] known1(p, m, k)),
+            (bor(p, m) == 0) == (p == 0 && m == 0),
+            (p != 0 && m == 0) ==> (exists|k: nat| k < w && #[trigger] known1(p, m, k)),
+{
+    broadcast use lemma_band_bit, lemma_bxor_bit, lemma_low_bit, lemma_bor_bit;
+    let n = band(p, bxor(m, low(w)));
+    lemma_band_le(p, bxor(m, low(w)));
+    lemma_nonzero_low(n, w);
+    if n != 0 {
+        let k = choose|k: nat| k < w && bit(n, k);
+        assert(known1(p, m, k));
+    }
+    if exists|k: nat| k < w && #[trigger] known1(p, m, k) {
+        let k = choose|k: nat| k < w && known1(p, m, k);
+        assert(bit(n, k));
+    }
+    lemma_nonzero_bit(bor(p, m)); lemma_nonzero_bit(p); lemma_nonzero_bit(m);
+    if p != 0 { let k = choose|k: nat| bit(p, k); assert(bit(bor(p, m), k)); }
+    if m != 0 { let k = choose|k: nat| bit(m, k); assert(bit(bor(p, m), k)); }
+    if bor(p, m) != 0 { let k = choose|k: nat| bit(bor(p, m), k); assert(bit(p, k) || bit(m, k)); }
+    if p != 0 && m == 0 {
+        lemma_nonzero_low(p, w);
+        let k = choose|k: nat| k < w && bit(p, k);
+        lemma_bit_zero(k);
+        assert(known1(p, m, k));
+    }
+}
+
+/// (p | m) != all-ones  <=>  some position is a known 0
+proof fn lemma_known0_mask(p: nat, m: nat, w: nat)
+    requires p < pow2(w), m < pow2(w)
+    ensures (bor(p, m) != low(w)) == (exists|k: nat| k < w && #[trigger] known0(p, m, k))
+{
+    broadcast use lemma_bor_bit, lemma_low_bit, lemma_bit_high;
+    let n = bor(p, m);
+    if exists|k: nat| k < w && #[trigger] known0(p, m, k) {
+        let k = choose|k: nat| k < w && known0(p, m, k);
+        assert(!bit(n, k) && bit(low(w), k));
+    } else {
+        assert forall|i: nat| #[trigger] bit(n, i) == bit(low(w), i) by {
+            if i < w { assert(!known0(p, m, i)); }
+        }
+        lemma_bit_ext(n, low(w));
+    }
+}
+
+/// the value form of operand extension and its bit form (opeval's `ext_bit`) are the same vector
+proof fn lemma_ext_bits(v: Value, w: nat, sx: bool, k: nat)
+    requires wf(v), vw(v) <= w, k < w
+    ensures b4(ext_p(v, w, sx), ext_m(v, w, sx), k) == ext_bit(v, k, sx)
+{
+    broadcast use lemma_bor_bit, lemma_bxor_bit, lemma_low_bit, lemma_bit_high;
+    let xw = vw(v);
+    lemma_pow2_small();
+    if xw == 0 {
+        lemma_half(vp(v), 0); lemma_half(vm(v), 0); lemma_bit_zero(k);
+    } else if xw < w {
+        lemma_sext(vp(v), xw, w); lemma_sext(vm(v), xw, w);
+        lemma_bit_zero(k);
+        assert(bit(bxor(low(w), low(xw)), k) == (k >= xw));
+    }
+}
+
+pub broadcast proof fn lemma_bit0(i: nat)
+    ensures !#[trigger] bit(0, i)
+{
+    lemma_bit_zero(i);
+}
+
+/// `((p >> s) & 1) == 1` on big integers is bit s
+proof fn lemma_msb_test(p: nat, s: nat)
+    ensures (band(p / pow2(s), 1) == 1) == bit(p, s)
+{
+    let n = p / pow2(s);
+    lemma_pow2_small();
+    lemma_band_low(n, 1);
+    assert(low(1) == 1);
+    lemma_shr_bit(p, s, 0);
+    lemma_half(n, 0);
+    assert(0 + s == s);
+}
+
+// ---- "the two representations agree" (C17, second sentence) -----------------------------------------------------------
+// The <=64-bit arms are proved by Kani (units value64 / opeval) against a reference over u64 words; the arms above are
+// proved against the functions of this file over nat. The lemmas below show that these are the same functions on every
+// value both representations can hold: a u64 word read as a natural number has the same bits, and the nat-level
+// and / or / xor are the machine operations. (Extension is already one function for both: Value::expand's single
+// contract ext_p / ext_m covers its u64 and its big-integer paths; lemma_ext_bits ties it to opeval's `ext_bit`.)
+proof fn lemma_agree_bit(a: u64, k: nat)
+    ensures bit(a as nat, k) == (k < 64 && ((a >> (k as u64)) & 1) == 1)
+{
+    lemma_pow2_small();
+    if k < 64 { lemma_u64_bit(a, k as u64); } else { lemma_pow2_le(64, k); lemma_bit_high(a as nat, 64, k); }
+}
+
+proof fn lemma_agree_bitops(a: u64, b: u64)
+    ensures band(a as nat, b as nat) == (a & b) as nat, bor(a as nat, b as nat) == (a | b) as nat, bxor(a as nat, b as nat) == (a ^ b) as nat
+{
+    broadcast use lemma_band_bit, lemma_bor_bit, lemma_bxor_bit;
+    assert forall|k: nat| #[trigger] bit(band(a as nat, b as nat), k) == bit((a & b) as nat, k) by {
+        lemma_agree_bit(a, k); lemma_agree_bit(b, k); lemma_agree_bit(a & b, k);
+        if k < 64 { let s = k as u64; assert(((a & b) >> s) & 1 == ((a >> s) & 1) & ((b >> s) & 1)) by (bit_vector); let (u, v) = ((a >> s) & 1, (b >> s) & 1); assert(u <= 1 && v <= 1) by (bit_vector) requires u == (a >> s) & 1, v == (b >> s) & 1; assert((u & v == 1) == (u == 1 && v == 1)) by (bit_vector) requires u <= 1, v <= 1; }
+    }
+    lemma_bit_ext(band(a as nat, b as nat), (a & b) as nat);
+    assert forall|k: nat| #[trigger] bit(bor(a as nat, b as nat), k) == bit((a | b) as nat, k) by {
+        lemma_agree_bit(a, k); lemma_agree_bit(b, k); lemma_agree_bit(a | b, k);
+        if k < 64 { let s = k as u64; assert(((a | b) >> s) & 1 == ((a >> s) & 1) | ((b >> s) & 1)) by (bit_vector); let (u, v) = ((a >> s) & 1, (b >> s) & 1); assert(u <= 1 && v <= 1) by (bit_vector) requires u == (a >> s) & 1, v == (b >> s) & 1; assert((u | v == 1) == (u == 1 || v == 1)) by (bit_vector) requires u <= 1, v <= 1; }
+    }
+    lemma_bit_ext(bor(a as nat, b as nat), (a | b) as nat);
+    assert forall|k: nat| #[trigger] bit(bxor(a as nat, b as nat), k) == bit((a ^ b) as nat, k) by {
+        lemma_agree_bit(a, k); lemma_agree_bit(b, k); lemma_agree_bit(a ^ b, k);
+        if k < 64 { let s = k as u64; assert(((a ^ b) >> s) & 1 == ((a >> s) & 1) ^ ((b >> s) & 1)) by (bit_vector); let (u, v) = ((a >> s) & 1, (b >> s) & 1); assert(u <= 1 && v <= 1) by (bit_vector) requires u == (a >> s) & 1, v == (b >> s) & 1; assert((u ^ v == 1) == ((u == 1) != (v == 1))) by (bit_vector) requires u <= 1, v <= 1; }
+    }
+    lemma_bit_ext(bxor(a as nat, b as nat), (a ^ b) as nat);
+}
+
+/// wrap-around arithmetic on words is arithmetic modulo 2^64 on the numbers they denote (w = 64; narrower widths mask further)
+proof fn lemma_agree_arith(a: u64, b: u64)
+    ensures a.wrapping_add(b) as nat == (a as nat + b as nat) % pow2(64),
+            a.wrapping_sub(b) as int == (a as int - b as int) % (pow2(64) as int),
+            a.wrapping_mul(b) as nat == (a as nat * b as nat) % pow2(64),
+{
+    lemma_pow2_small();
+    let m = pow2(64) as int;
+    if a as int + b as int >= m { lemma_mod_unique(a.wrapping_add(b) as int, a as int + b as int, 1, m); } else { lemma_small_mod((a + b) as nat, pow2(64)); }
+    if (a as int) < b as int { lemma_mod_unique(a.wrapping_sub(b) as int, a as int - b as int, -1, m); } else { lemma_small_mod((a - b) as nat, pow2(64)); }
+}
+
+// ---- shifts: the values the shift arms compute, and what they mean position by position ------------------------------
+pub open spec fn shl_val(p: nat, w: nat, y: nat) -> nat { band(p * pow2(if y <= w { y } else { w }), low(w)) }
+pub open spec fn ashr_fill(w: nat, y: nat) -> nat { bxor(low(if y >= w { 0 } else { (w - y) as nat }), low(w)) }
+pub open spec fn ashr_val(p: nat, w: nat, y: nat, msb: bool) -> nat { bor(p / pow2(y), if msb { ashr_fill(w, y) } else { 0 }) }
+
+/// y is the amount the code uses (saturated at usize::MAX), s the true amount: equal, or both at least w
+proof fn lemma_shl(p: nat, w: nat, y: nat, s: nat)
+    requires y == s || (y >= w && s >= w)
+    ensures shl_val(p, w, y) < pow2(w),
+            forall|k: nat| k < w ==> #[trigger] bit(shl_val(p, w, y), k) == (k >= s && bit(p, (k - s) as nat))
+{
+    broadcast use lemma_band_bit, lemma_low_bit, lemma_shl_bit;
+    let yy = if y <= w { y } else { w };
+    lemma_band_low(p * pow2(yy), w);
+    assert forall|k: nat| k < w implies #[trigger] bit(shl_val(p, w, y), k) == (k >= s && bit(p, (k - s) as nat)) by {}
+}
+
+proof fn lemma_shr(p: nat, w: nat, y: nat, s: nat)
+    requires p < pow2(w), y == s || (y >= w && s >= w)
+    ensures p / pow2(y) < pow2(w),
+            forall|k: nat| k < w ==> #[trigger] bit(p / pow2(y), k) == (k + s < w && bit(p, k + s))
+{
+    lemma_pow2_pos(y);
+    lemma_div_nonincreasing(p as int, pow2(y) as int);
+    lemma_div_pos_is_pos(p as int, pow2(y) as int);
+    assert forall|k: nat| k < w implies #[trigger] bit(p / pow2(y), k) == (k + s < w && bit(p, k + s)) by {
+        lemma_shr_bit(p, y, k);
+        if k + y >= w { lemma_bit_high(p, w, k + y); }
+    }
+}
+
+proof fn lemma_ashr(p: nat, w: nat, y: nat, s: nat, msb: bool)
+    requires p < pow2(w), w >= 1, y == s || (y >= w && s >= w)
+    ensures ashr_val(p, w, y, msb) < pow2(w),
+            forall|k: nat| k < w ==> #[trigger] bit(ashr_val(p, w, y, msb), k) == (if k + s < w { bit(p, k + s) } else { msb })
+{
+    lemma_shr(p, w, y, s);
+    let f = if msb { ashr_fill(w, y) } else { 0 };
+    assert forall|k: nat| #[trigger] bit(ashr_val(p, w, y, msb), k) == (bit(p / pow2(y), k) || (msb && k < w && k + y >= w)) by {
+        lemma_bor_bit(p / pow2(y), f, k);
+        lemma_bit_zero(k);
+        lemma_bxor_bit(low(if y >= w { 0 } else { (w - y) as nat }), low(w), k);
+        lemma_low_bit(if y >= w { 0 } else { (w - y) as nat }, k);
+        lemma_low_bit(w, k);
+    }
+    assert forall|k: nat| k >= w implies !#[trigger] bit(ashr_val(p, w, y, msb), k) by {
+        lemma_pow2_pos(y);
+        lemma_bit_high(p / pow2(y), w, k);
+    }
+    lemma_bits_bound(ashr_val(p, w, y, msb), w);
 }
